@@ -344,7 +344,8 @@ class NumpyDataWrapper(SourceDataWrapper):
             A structured numpy array, containing the required chunks of all the relevant data sets from the source data.
         """
 
-        if self._dtype == self._data_source.dtype:
+        if self._dtype == self._data_source.dtype and all(k == v for k, v in self._mapping.items()):
+            # (equal dtypes do not mean that every data type takes the data set of its own name)
             if stop is None:
                 stop = self._n_rows
             return self._data_source[self._from_idx + start:self._from_idx + stop]
